@@ -88,6 +88,11 @@ fn main() {
         "gen" => {
             // panics of the code under test are caught per call and logged as data; keep stderr quiet
             std::panic::set_hook(Box::new(|_| {}));
+            // in the checked profile std's unsafe-precondition checks ABORT the process; with the hooks armed the same fault is
+            // reported one step earlier as an (unwinding, hence catchable) panic and becomes `res = "panic"` in the event
+            if cfg!(debug_assertions) {
+                yuvxyb_math::verif_hooks::enable(yuvxyb_math::verif_hooks::Mode::Summary);
+            }
             let prop = pos.first().expect("property id").clone();
             let mut sh = util::Shards::create(&o.out, &prop, o.shards, &build_tag()).expect("create shards");
             if !o.as_prop.is_empty() {
